@@ -127,7 +127,7 @@ func scenarioC11(r *Run) {
 }
 
 func c11Spec(t *tape.Tape, n int) *MsgSpec {
-	spec := &MsgSpec{Kind: refcose.KSignTagged, Payload: genPayload(t, false), External: genExternal(t)}
+	spec := &MsgSpec{Kind: refcose.KSignTagged, Payload: genPayload(t, t.Bool(1, 40, "c11.big")), External: genExternal(t)}
 	spec.Layer = genLayer(t, LayerOpts{MaxExtra: 2})
 	for i := 0; i < n; i++ {
 		k := pickCheapKey(t)
@@ -423,6 +423,10 @@ func c11Verify(r *Run, t *tape.Tape) {
 	for i, k := range vkeys {
 		spies[i] = &SpyVerifier{Inner: r.verifierFor(k, false), Alg: cose.Algorithm(k.Alg), Log: &log, Tag: itoa(i)}
 		vs[i] = spies[i]
+		if refcose.HashFor(k.Alg) != 0 && t.Bool(1, 2, "c11.digestcap") {
+			// the seam offers VerifyDigest too, like the built-in verifiers
+			vs[i] = DigestSpyVerifier{spies[i]}
+		}
 	}
 	panicAt := -1
 	if len(spies) > 0 && t.Bool(1, 12, "c11.verifier.panic") {
@@ -488,6 +492,11 @@ func c11Verify(r *Run, t *tape.Tape) {
 			}
 		}
 		for i, s := range spies {
+			for _, c := range s.DigestCalls {
+				if !bytes.Equal(c.Content, refcose.Digest(refcose.HashFor(int64(s.Alg)), tbss[i])) || !bytes.Equal(c.Signature, st.sigs[i].sig) {
+					r.Fail("verifier-offered-foreign-signature/digest", "verifier %d was offered (VerifyDigest) a digest/signature that are not those of signature %d\n got digest: %x\nwant: hash of %s", i, i, c.Content, hexShort(tbss[i]))
+				}
+			}
 			for _, c := range s.Calls {
 				if !bytes.Equal(c.Content, tbss[i]) || !bytes.Equal(c.Signature, st.sigs[i].sig) {
 					r.Fail("verifier-offered-foreign-signature", "verifier %d was offered content/signature that are not those of signature %d\n got content: %s\nwant content: %s\n got sig: %s\nwant sig: %s",
